@@ -121,7 +121,7 @@ pub enum ReverseStep {
     LoopNextBack(Loop),
     PopSpecial,
     PushSpecial(Special),
-    DropLocal(usize),
+    SetLocals(Xvec),
     SwapRef(CellRef, Cell),
 }
 
@@ -1094,6 +1094,7 @@ impl State {
                 let idx = *i;
                 let val = self.pop_data()?;
                 let frame = self.top_frame()?;
+                let old_locals = frame.locals.clone();
                 // slots of declarations skipped by an untaken branch stay nil
                 while frame.locals.len() < idx {
                     frame.locals.push_back_mut(NIL);
@@ -1104,7 +1105,7 @@ impl State {
                     frame.locals.push_back_mut(val);
                 }
                 if self.is_recording() {
-                    self.add_reverse_step(ReverseStep::DropLocal(idx));
+                    self.add_reverse_step(ReverseStep::SetLocals(old_locals));
                 }
                 self.next_ip();
             }
@@ -1271,9 +1272,9 @@ impl State {
                     return Err(Xerr::unbalanced_vec_builder());
                 }
             }
-            ReverseStep::DropLocal(_) => {
+            ReverseStep::SetLocals(old_locals) => {
                 let f = self.top_frame()?;
-                f.locals.drop_last_mut();
+                f.locals = old_locals;
             }
             ReverseStep::SwapRef(cref, val) => {
                 let idx = cref.index();
